@@ -8,6 +8,7 @@ from .engine import core
 STARTS = [  # (SDATE, STIME) instants chosen to cross day / year / leap-day boundaries
     (1999365, 230000), (2000059, 230000), (2000060, 230000), (2001001, 0),
     (2019182, 120000), (2000366, 233000),
+    (2049365, 220000),      # beyond 19 Jan 2038 (32-bit seconds since 1970)
 ]
 VG = np.array([1., .75, .5, .25, 0.], dtype='f')
 
